@@ -190,7 +190,11 @@ func runC18(c *wk.Ctx) {
 		}
 	}
 	ncases := int64(len(plists)) * int64(len(results))
-	c.Cases(ncases+int64(len(pool)*6)+4, func(idx int64, r *wk.Rand) {
+	c.Cases(ncases+int64(len(pool)*6)+4+4, func(idx int64, r *wk.Rand) {
+		if idx >= ncases+int64(len(pool)*6)+4 {
+			c18Reentrant(c, int(idx-ncases-int64(len(pool)*6)-4))
+			return
+		}
 		if idx >= ncases+int64(len(pool)*6) {
 			c18Concurrent(c, int(idx-ncases-int64(len(pool)*6)))
 			return
@@ -700,6 +704,90 @@ func c18Concurrent(c *wk.Ctx, k int) {
 	if wrong.Load() > 0 || failed.Load() > 0 {
 		c.Violation("C18:call:concurrent-callers-mixed-up", fmt.Sprintf("%d of %d concurrent calls on one function object returned another caller's result (%d failed); first: %v", wrong.Load(), goroutines*calls, failed.Load(), first.Load()),
 			map[string]any{"dynamic": dynamic, "parameters": map[bool]int{false: 1, true: 2}[twoArgs], "goroutines": goroutines})
+	}
+}
+
+// c18Reentrant: a handler may call functions itself - its own (recursion) or another one that calls back. The
+// calls are made on the case's own goroutine: a call that never returns ends as the driver's hang / blocked
+// verdict for this case. k: 0 static recursion, 1 dynamic recursion, 2 static mutual recursion, 3 a handler that
+// calls a different function twice.
+func c18Reentrant(c *wk.Ctx, k int) {
+	intS := schema.NewIntSchema(nil, nil, nil)
+	anyT := func([]schema.Type) (schema.Type, error) { return schema.NewAnySchema(), nil }
+	var f, g schema.CallableFunction
+	var err, err2 error
+	asInt := func(v any, e error) int64 {
+		if e != nil {
+			panic(fmt.Sprint("inner call failed: ", e))
+		}
+		n, ok := v.(int64)
+		if !ok {
+			panic(fmt.Sprintf("inner call returned %T(%v)", v, v))
+		}
+		return n
+	}
+	switch k {
+	case 0:
+		f, err = schema.NewCallableFunction("sum", []schema.Type{intS}, intS, true, nil, func(n int64) (int64, error) {
+			if n <= 0 {
+				return 0, nil
+			}
+			return n + asInt(f.Call([]any{n - 1})), nil
+		})
+	case 1:
+		f, err = schema.NewDynamicCallableFunction("sum", []schema.Type{intS}, nil, func(n int64) (any, error) {
+			if n <= 0 {
+				return int64(0), nil
+			}
+			return n + asInt(f.Call([]any{n - 1})), nil
+		}, anyT)
+	case 2:
+		f, err = schema.NewCallableFunction("sum", []schema.Type{intS}, intS, true, nil, func(n int64) (int64, error) {
+			if n <= 0 {
+				return 0, nil
+			}
+			return n + asInt(g.Call([]any{n - 1})), nil
+		})
+		g, err2 = schema.NewCallableFunction("sum2", []schema.Type{intS}, intS, false, nil, func(n int64) int64 {
+			if n <= 0 {
+				return 0
+			}
+			return n + asInt(f.Call([]any{n - 1}))
+		})
+	default:
+		g, err2 = schema.NewCallableFunction("half", []schema.Type{intS}, intS, false, nil, func(n int64) int64 { return n / 2 })
+		f, err = schema.NewCallableFunction("sum", []schema.Type{intS}, intS, true, nil, func(n int64) (int64, error) {
+			return asInt(g.Call([]any{n})) + asInt(g.Call([]any{n + 1})), nil
+		})
+	}
+	wit := map[string]any{"kind": []string{"static recursion", "dynamic recursion", "mutual recursion", "nested calls of another function"}[k]}
+	if err != nil || err2 != nil {
+		c.Violation("C18:static:rejected-but-signature-agrees", fmt.Sprintf("constructor rejected a matching handler: %v %v", err, err2), wit)
+		return
+	}
+	for _, n := range []int64{0, 1, 2, 7, 40} {
+		want := n * (n + 1) / 2
+		if k == 3 {
+			want = n/2 + (n+1)/2
+		}
+		var got any
+		var cerr error
+		c.Note(fmt.Sprintf("re-entrant Call kind=%d n=%d", k, n))
+		p, site, msg, _ := wk.Guard(func() { got, cerr = f.Call([]any{n}) })
+		c.CountN("reentrant_calls", 1)
+		c.Eval(wk.Hash64("reentrant", fmt.Sprint(k, n)), true)
+		wit["n"] = n
+		switch {
+		case p:
+			c.Violation("C18:call:panic:reentrant:"+site, "a Call made from inside a handler panicked: "+msg, wit)
+			return
+		case cerr != nil:
+			c.Violation("C18:call:reentrant-call-failed", fmt.Sprintf("a handler that calls a function itself: Call(%d) failed: %v", n, cerr), wit)
+			return
+		case got != want:
+			c.Violation("C18:call:result-differs:reentrant", fmt.Sprintf("Call(%d) returned %v (%T), the handler returned %d", n, got, got, want), wit)
+			return
+		}
 	}
 }
 
